@@ -32,8 +32,8 @@ import (
 
 func init() {
 	core.Register(&core.Check{
-		ID: "C19",
-		Rule: "cases: schedules, each in a FRESH child process of the race-detector build (first use happens once per process): 4-16 goroutines released by a barrier make first use, in different PRNG orders, of a PRNG pool of 48 message types (generated open/hybrid/opaque, legacy wrappers), their files (every L2 accessor and lookup map), enum and extension types, and the global registries (lookups, ranges, registration of dynamic types under unique and under deliberately conflicting names), with GOMAXPROCS in {1,2,4,16} and PRNG delays injected by the verif hooks at MessageInfo.initOnce / File.lazyInitOnce entry, under the lock and just before the done flag is published; monitors: race-detector report blocks (halt_on_error=0, counted from the log), recovered panics, every goroutine's descriptor digest (deep accessor snapshot) and behaviour digest (deterministic bytes and JSON of fixed content) vs the digests computed by a sequential process of the same binary, hook trace (contended initialisations, exactly one initialiser per MessageInfo / File), and the registry operation history (call/return stamps from one atomic clock) checked with porcupine against a per-name register-once model; distinct = distinct (schedule, goroutine, item); non-trivial = schedule with at least one contended initialisation",
+		ID:     "C19",
+		Rule:   "cases: schedules, each in a FRESH child process of the race-detector build (first use happens once per process): 4-16 goroutines released by a barrier make first use, in different PRNG orders, of a PRNG pool of 48 message types (generated open/hybrid/opaque, legacy wrappers), their files (every L2 accessor and lookup map), enum and extension types, and the global registries (lookups, ranges, registration of dynamic types under unique and under deliberately conflicting names), with GOMAXPROCS in {1,2,4,16} and PRNG delays injected by the verif hooks at MessageInfo.initOnce / File.lazyInitOnce entry, under the lock and just before the done flag is published; monitors: race-detector report blocks (halt_on_error=0, counted from the log), recovered panics, every goroutine's descriptor digest (deep accessor snapshot) and behaviour digest (deterministic bytes and JSON of fixed content) vs the digests computed by a sequential process of the same binary, hook trace (contended initialisations, exactly one initialiser per MessageInfo / File), and the registry operation history (call/return stamps from one atomic clock) checked with porcupine against a per-name register-once model; distinct = distinct (schedule, goroutine, item); non-trivial = schedule with at least one contended initialisation",
 		Assume: []string{"the Go race detector", "porcupine v1.3.0 (linearizability checker)", "digests of a single-goroutine process as the sequential reference"},
 		Batches: func(tier string) []core.Batch {
 			n := 4
@@ -56,12 +56,12 @@ func init() {
 // ---------- child side ----------
 
 type c19Params struct {
-	Seed       uint64 `json:"seed"`
-	Schedule   int    `json:"schedule"`
-	Goroutines int    `json:"goroutines"`
-	Pool       int    `json:"pool"`
+	Seed       uint64   `json:"seed"`
+	Schedule   int      `json:"schedule"`
+	Goroutines int      `json:"goroutines"`
+	Pool       int      `json:"pool"`
 	Names      []string `json:"names"` // the pool, chosen by the parent: the child must not touch descriptors before the barrier
-	Out        string `json:"out"`
+	Out        string   `json:"out"`
 }
 
 type c19Op struct {
@@ -74,17 +74,17 @@ type c19Op struct {
 }
 
 type c19ChildReport struct {
-	Digests         map[string]map[string]string `json:"digests"` // goroutine -> item -> digest
-	Panics          []string                     `json:"panics"`
-	Ops             []c19Op                      `json:"ops"`
-	ContendedMsg    int64                        `json:"contended_msg"`
-	ContendedFile   int64                        `json:"contended_file"`
-	MultiInitMsg    []string                     `json:"multi_init_msg"`
-	MultiInitFile   []string                     `json:"multi_init_file"`
-	Delays          int64                        `json:"delays"`
-	FirstUseOps     int64                        `json:"first_use_ops"`
-	InitsObserved   int64                        `json:"inits_observed"`
-	FileInitsObserved int64                      `json:"file_inits_observed"`
+	Digests           map[string]map[string]string `json:"digests"` // goroutine -> item -> digest
+	Panics            []string                     `json:"panics"`
+	Ops               []c19Op                      `json:"ops"`
+	ContendedMsg      int64                        `json:"contended_msg"`
+	ContendedFile     int64                        `json:"contended_file"`
+	MultiInitMsg      []string                     `json:"multi_init_msg"`
+	MultiInitFile     []string                     `json:"multi_init_file"`
+	Delays            int64                        `json:"delays"`
+	FirstUseOps       int64                        `json:"first_use_ops"`
+	InitsObserved     int64                        `json:"inits_observed"`
+	FileInitsObserved int64                        `json:"file_inits_observed"`
 }
 
 // c19Items lists the items of the schedule's pool in a deterministic order.
